@@ -1000,6 +1000,21 @@ def table_clauses(be, code, labs):
     return count
 
 
+def wide_type_programs(n):
+    """codata / data types with n xtors; the uses pick the last position, position 1024 / 512 (the first table offsets that
+    are a whole multiple of the AArch64 / RISC-V immediate range) and a small one"""
+    pos = sorted({p_ for p_ in (3, 512, 513, 1024, 1025, n - 1) if p_ < n})
+    ds = ", ".join("d%d: i64" % i for i in range(n))
+    cl = ", ".join("d%d => %d" % (i, i) for i in range(n))
+    uses = " ".join("println_i64(w.d%d);" % p_ for p_ in pos)
+    co = ("codata W { %s }\ndef mk(): W { new { %s } }\ndef use(w: W): i64 { %s 0 }\ndef main(): i64 { use(mk()) }\n" % (ds, cl, uses))
+    cs = ", ".join("K%d" % i for i in range(n))
+    cl2 = ", ".join("K%d => %d" % (i, i) for i in range(n))
+    picks = " ".join("println_i64(pick(K%d));" % p_ for p_ in pos)
+    da = "data E { %s }\ndef pick(e: E): i64 { e.case { %s } }\ndef main(): i64 { %s 0 }\n" % (cs, cl2, picks)
+    return [("wide%d_codata" % n, co), ("wide%d_data" % n, da)]
+
+
 def check_C14(tier):
     stages.EFFECTS_LIMIT = T(tier, 6, None)
     import native, refine, time, collections
@@ -1024,6 +1039,13 @@ def check_C14(tier):
         for j, v2 in enumerate(adversarial_renames(src, texts)):
             adv.append({"name": "%s_ren%d" % (n, j), "kind": "fun", "src": v2})
             meta["%s_ren%d" % (n, j)] = {"src": v2, "origin": "adversarial-rename"}
+    # types with many xtors (the property quantifies over them): destructors / constructors at positions whose tag or table
+    # offset no longer fits a small immediate, invoked on a variable (constant offset added to the table address) and
+    # through a known constructor (tag materialised as a literal)
+    for wn in T(tier, [40, 1030], [40, 300, 520, 1030, 2100]):
+        for nm, src in wide_type_programs(wn):
+            adv.append({"name": nm, "kind": "fun", "src": src})
+            meta[nm] = {"src": src, "origin": "wide-type"}
     # type-label / clause-label clash: label numbers depend on everything the process compiled before, so the base program is
     # compiled alone in a fresh process, the clash is constructed from the labels seen there, and the variant is compiled alone too
     tclash_arts = []
@@ -1104,6 +1126,26 @@ def check_C14(tier):
                     viols.append({"signature": "C14:x86:as:%s" % lockstep.normalize_why(d), "replay": rp, "what": "%s: GNU as rejects the file: %s" % (name, d)})
             else:
                 stats["x86:as-accepted"] += 1
+    # ground truth for AArch64: the assembler of LLVM (clang --target=aarch64-linux-gnu), same two-way agreement
+    a64_truth = nat.a64_available()
+    if a64_truth:
+        a64files = [f for f in files if f["backend"] == "a64"]
+        def asm2(f):
+            ok, diag = nat.assemble_a64(f["name"].replace(":", "_"), texts[f["name"]])
+            return f["name"], ok, diag
+        with concurrent.futures.ThreadPoolExecutor(max_workers=12) as ex:
+            for name, ok, diag in ex.map(asm2, a64files):
+                v = verdict[name]
+                if ok and v["status"] == "fail" and v["tag"] in ("encode", "labels", "targets"):
+                    raise ToolError("spec/AsmWF.tla rejects %s (%s) but the AArch64 assembler accepts it: the specification is too strict" % (name, v["why"]))
+                if not ok:
+                    stats["a64:as-rejected"] += 1
+                    if v["status"] != "fail":
+                        d = " | ".join(sorted({re.sub(r"^.*?error: ", "", l) for l in diag.splitlines() if "error:" in l}))[:160]
+                        rp = save_replay("C14", "as-" + name, {"file": name, "diag": diag[:4000], "asm": texts[name]})
+                        viols.append({"signature": "C14:a64:as:%s" % lockstep.normalize_why(d), "replay": rp, "what": "%s: the AArch64 assembler rejects the file: %s" % (name, d)})
+                else:
+                    stats["a64:as-accepted"] += 1
     log("[C14] %s" % dict(stats))
     new = triage("C14", viols)
     write_evidence("C14", tier, "model_checking",
@@ -1113,8 +1155,10 @@ def check_C14(tier):
                     "rule": "every emitted file of generated programs (adversarial identifiers lab1/cleanup/asm_main/share_f_0, names equal "
                             "to the labels the compiler generated for the same program, many-xtor types, literals of every magnitude in "
                             "register and spill placements) judged statically by spec/AsmWF.tla on all three backends; x86-64 files "
-                            "additionally assembled by GNU as, whose verdict must agree with the specification in both directions"},
-                   time.time() - t0, len(viols), assumptions=["no AArch64 / RISC-V assembler is installed: operand ranges of spec/A64.tla are from the architecture manual"])
+                            "additionally assembled by GNU as and AArch64 files by LLVM's assembler, whose verdicts must agree with "
+                            "the specification in both directions"},
+                   time.time() - t0, len(viols), assumptions=(["AArch64 files assembled by LLVM's integrated assembler (clang --target=aarch64-linux-gnu), which must agree with spec/AsmWF.tla in both directions"] if a64_truth else ["no AArch64 assembler found: operand ranges of spec/A64.tla are from the architecture manual"])
+                               + ["the RISC-V text is the backend's own notation (blank-separated operands), which no assembler reads: judged by the specification only"])
     return 1 if new else 0
 
 
